@@ -42,6 +42,26 @@ CHECKS = {
         technique='TLC model checking of the complete scope table + TLC-judged conformance of the table on real Enforcers with three credential representations',
         text='MC: spec/MC_Scope.tla - the complete finite table, Enforce = the sentence of C08 and token precedence system > domain > project. Conformance: the table (sampled in quick, complete in thorough) against real Enforcers with RequestContext / to_policy_values() / dict credentials; judged by spec/Conf_Eval.tla.',
         ref='DESIGN.md 4/C08'),
+    'C09': dict(
+        technique='TLC model checking of the loader over every file configuration + trace validation of real fresh loads (spec/Trace_Loader.tla) + TLC-judged file-selection table',
+        text='MC: spec/MC_Loader.tla (SpecAll) enumerates every configuration of four policy files, a dot-file and a sub-directory in two directories plus a missing one: LoadRules from scratch (transcribed from load_rules/_load_policy_file/read_cached_file) = the declarative layering FreshPolicy. spec/MC_Pick.tla: file selection as written = the sentence. Conformance: the configurations are materialised on disk (creation order differs from sort order, JSON/YAML per file), loaded by a real Enforcer, and the recorded trace is validated by spec/Trace_Loader.tla; the file-selection rows run on real ConfigOpts and are judged by spec/Conf_Pick.tla.',
+        ref='DESIGN.md 4/C09'),
+    'C10': dict(
+        technique='TLC model checking of all bounded file-system/load histories + trace validation of real histories against the same actions (spec/Trace_Loader.tla)',
+        text='MC: spec/MC_Loader.tla explores every history of write/empty/touch/delete on the main file and three directory files, ignored entries, loads and forced loads up to MaxOps ticks: LongLivedEqualsFresh, CacheCoherent, Idempotent. Conformance: exhaustive short histories and random histories up to 40 steps are replayed on real files with os.utime-controlled mtimes against a long-lived real Enforcer and a fresh one at every load; each recorded event must be explained by the corresponding spec action and the observed decisions must equal those of the spec state and of the declarative layering.',
+        ref='DESIGN.md 4/C10'),
+    'C11': dict(
+        technique='TLC model checking of the deprecated-rule procedure vs the override table on every file configuration + trace validation of every table row on real Enforcers',
+        text='MC: spec/MC_Loader.tla (SpecAll) for six deprecation variants x enforce_new_defaults: HandleDeprecated (branch for branch) = C11Body (the sentence). Conformance: every row of the table on real Enforcers with real DeprecatedRule objects, textual variants of check strings, arbitrary reason/since; validated by spec/Trace_Loader.tla.',
+        ref='DESIGN.md 4/C11'),
+    'C12': dict(
+        technique='TLC model checking of reload idempotence + trace validation of multi-enforcer interleavings projected per enforcer, with object snapshots',
+        text='MC: spec/MC_Loader.tla action property Idempotent and LongLivedExact over bounded histories. Conformance: every interleaving up to length 3-4 of load/forced load/enforce/edit across two real Enforcers (random ones across three) built from one shared list of default objects with different files/options; each enforcer\'s projection is validated by spec/Trace_Loader.tla, the printed rule set must not change on a repeated load, and attribute snapshots of the caller-owned objects must stay equal.',
+        ref='DESIGN.md 4/C12'),
+    'C16': dict(
+        technique='TLC model checking of the reply rule / fault / request over an alphabet around the accepted form + TLC-judged conformance with the transport stubbed below the requests API',
+        text='MC: spec/MC_Http.tla - every reply body up to MaxBody characters x faults x six nesting contexts: strip-and-compare = the sentence, faults never decide, short-circuit sends nothing, the request names the enforced policy. Conformance: real enforce calls with requests.adapters.HTTPAdapter.send replaced; reply bodies, status codes, content types, timeout/connection/TLS faults, nested and opaque target values; the decoded request and the decision are judged by spec/Conf_Eval.tla (HttpOK).',
+        ref='DESIGN.md 4/C16'),
     'C14': dict(
         technique='TLC model checking of totality of the outcome alphabet + TLC-judged conformance with hostile leaf texts (an undocumented exception has no spec action)',
         text='MC: spec/MC_Leaves.tla and spec/MC_Scope.tla - every path into every credential shape has a defined outcome; Enforce raises documented classes only. Conformance: random acyclic rule sets with leaves from a hostile alphabet against credentials/targets holding every JSON type at every position; spec/Conf_Eval.tla rejects any trace whose outcome is an exception outside the documented set.',
